@@ -97,9 +97,16 @@ def get_text_from(path, encoding=None) -> str:
     except TypeError:
         # Not an os.PathLike, maybe it is an already-opened file object
         if path.readable():
-            position = path.tell()
+            try:
+                position = path.tell()
+            except (OSError, ValueError):
+                # A pipe or another stream that cannot be rewound.
+                position = None
             try:
                 s = path.read()
+                if isinstance(s, bytes) and position is None:
+                    # Cannot go back, but the bytes are all here.
+                    return decode_by_char(io.BytesIO(s))
                 if isinstance(s, bytes):
                     # Oh, it was opened in 'b' mode, need to rewind and
                     # decode.  Since the 'catch' below already does that,
@@ -115,6 +122,8 @@ def get_text_from(path, encoding=None) -> str:
             except UnicodeDecodeError:
                 # All of the bytes weren't decodeable, maybe the initial
                 # sequence is (as above)?
+                if position is None:
+                    raise
                 path.seek(position)  # Reset after the previous .read():
                 # A text stream decodes whole blocks at a time and loses
                 # the good characters of a block with a bad byte in it,
